@@ -3,7 +3,7 @@
    runs the model over the same operations and compares step by step. *)
 From Coq Require Import List ZArith Bool.
 From Lib Require Import CorrLib.
-From Model Require Import Inherit.
+From Model Require Import Inherit InheritInst.
 Import ListNotations.
 Open Scope Z_scope.
 
@@ -18,8 +18,13 @@ Inductive ores :=
 | OSeen (l : list (cls * oobj * bool))          (* entry class, what get returned, same instance as the written one *)
 | OObjs (l : list oobj) (n : Z) (from : list cls).
 
-Record ostep := mkstep { s_op : op; s_res : ores; s_tabs : list (list row); s_refs : list Z }.
-Record case := mkcase { c_auto : bool; c_steps : list ostep }.
+(* a step of the extended history language (Model/InheritInst.v); `c_inst`: the history was run on ONE identity map
+   (instance layer: cached values, sync / expire, out-of-band UPDATEs); otherwise the operations are all `Old` ones
+   and the tables-only model of Model/Inherit.v is compared *)
+Record ostep := mkstep { s_op : iop; s_res : ores; s_tabs : list (list row); s_refs : list Z }.
+Record case := mkcase { c_auto : bool; c_inst : bool; c_steps : list ostep }.
+Definition unold (o : iop) : op := match o with Old o' => o' | _ => Unref 0 end.
+Definition all_old (l : list iop) : bool := forallb (fun o => match o with Old _ => true | _ => false end) l.
 
 Definition exn_eqb (a b : exn) : bool :=
   match a, b with
@@ -87,4 +92,8 @@ Fixpoint steps_agree (tr : list (st * res)) (os : list ostep) : bool :=
   end.
 
 Definition agree (c : case) : bool :=
-  steps_agree (trace (c_auto c) init (map s_op (c_steps c))) (c_steps c).
+  if c_inst c then
+    steps_agree (map (fun sr => (db (fst sr), snd sr)) (itrace (c_auto c) iinit (map s_op (c_steps c)))) (c_steps c)
+  else
+    all_old (map s_op (c_steps c)) &&
+    steps_agree (trace (c_auto c) init (map unold (map s_op (c_steps c)))) (c_steps c).
